@@ -235,6 +235,16 @@ PairClauses ==
                   THEN Report("VIOL", "C15", Sorted[n], "eval-path-dependent", [a |-> a.fen, b |-> b.fen])
                   ELSE TRUE
 
+\* C03, the converse: one position (placement, side, rights, en-passant target - the writer's text without its counters)
+\* has one key, whatever the clocks and the path were.
+IdKeyPairs == {<<Rec[i].fid, Rec[i].key>> : i \in 1..N}
+OneKeyPerPosition ==
+    IF Cardinality({p[1] : p \in IdKeyPairs}) = Cardinality(IdKeyPairs) THEN TRUE
+    ELSE LET p == CHOOSE x \in IdKeyPairs : \E y \in IdKeyPairs : x[1] = y[1] /\ x[2] # y[2]
+             i == CHOOSE k \in 1..N : Rec[k].fid = p[1] /\ Rec[k].key = p[2]
+             j == CHOOSE k \in 1..N : Rec[k].fid = p[1] /\ Rec[k].key # p[2]
+         IN  Report("VIOL", "C03", i, "one-position-two-keys", [a |-> Rec[i].fen, b |-> Rec[j].fen])
+
 \* C03: all 838 words pairwise distinct and non-zero.
 AllWords == [i \in 1..838 |-> Word(i)]
 WordClauses ==
@@ -250,6 +260,7 @@ Max(S) == CHOOSE x \in S : \A y \in S : y <= x
 
 TraceAccepted ==
     /\ PairClauses
+    /\ OneKeyPerPosition
     /\ WordClauses
     /\ Stat("trace", [events |-> N, diameter |-> TLCGet("stats").diameter,
                        distinct_keys |-> DistinctKeys,
